@@ -52,3 +52,54 @@ def run(exe, lines, timeout=1200, env=None):
             out.append("ABORT:" + (last[-1].strip().replace(" ", "_") if last else "rc=%s" % rc))
             i += 1
     return out
+
+
+# ------------------------------------------------------------------------------------------------
+# C21 scenario generator (input format of harness/crates/rtmock/src/bin/subtask.rs)
+# ------------------------------------------------------------------------------------------------
+def gen_subtask_case(rng, malformed=False):
+    """One line `<ver> <size> <ind> <nlists> <nown> <callstatus> <callhandle> | actions`.
+    Mostly CM-valid host behaviour; with malformed=True also statuses/answers the CM never gives."""
+    ver = rng.choice([1, 2, 2])
+    size = rng.choice([0, 72, 72])
+    ind = rng.below(2) if size else 0
+    nl = rng.choice([0, 0, 1, 2, 5])
+    no = rng.choice([0, 0, 1, 3])
+    cs, ch = rng.weighted([((0, 1), 5), ((1, 1), 3), ((2, 0), 2)])
+    if malformed and rng.chance(1, 3):
+        cs, ch = rng.choice([(2, 1), (0, 0), (1, 0), (3, 1), (4, 1), (5, 1), (3, 0), (4, 0), (9, 1)])
+    acts = []
+    level, polled, gone = cs, False, False
+    if rng.chance(5, 6):
+        acts.append("p"); polled = True
+    for _ in range(rng.range(0, 9)):
+        k = rng.weighted([("p", 5), ("h", 4), ("w", 4), ("x", 1)])
+        if k == "p":
+            acts.append("p"); polled = True
+        elif k == "w":
+            acts.append("w")
+        elif k == "h":
+            if malformed and rng.chance(1, 3):
+                acts.append("h%d" % rng.choice([0, 1, 2, 3, 4, 7]))
+            else:
+                opts = [c for c in (1, 2) if c > level]
+                if not opts or not polled or gone:
+                    continue
+                c = rng.choice(opts); level = c
+                acts.append("h%d" % c)
+        else:
+            acts += _subtask_drop(rng, level, polled, malformed); gone = True
+    if not gone and rng.chance(4, 5):
+        acts += _subtask_drop(rng, level, polled, malformed)
+        if rng.chance(1, 6):
+            acts += [rng.choice(["p", "w", "x"])]
+    return "%d %d %d %d %d %d %d | %s" % (ver, size, ind, nl, no, cs, ch, " ".join(acts))
+
+
+def _subtask_drop(rng, level, polled, malformed):
+    if polled and rng.chance(2, 3):
+        opts = {0: [2, 3, 4], 1: [2, 4]}.get(level, [2])
+        if malformed and rng.chance(1, 2):
+            opts = [0, 1, 2, 3, 4, 5]
+        return ["a%d" % rng.choice(opts), "x"]
+    return ["x"]
